@@ -2,15 +2,20 @@
 # try_seed_snap.sh <seed-id> <check>[:thorough] ... — like try_seed.sh, but the
 # harness is built from a snapshot of the committed /verif (git worktree
 # /tmp/verif-try, own target directory), so that /verif/harness can be edited
-# while seeded changes are being tried. /repo itself is still patched and
-# restored (the harness links krill by path), so one run at a time.
+# while seeded changes are being tried, and krill from a scratch worktree of
+# /repo's HEAD (/tmp/repo-try), where the seeded change is applied - /repo
+# itself is not touched. One run at a time (shared snapshot and target).
+# (C13's route-table guard still reads the dispatch sources under /repo.)
 # Refresh the snapshot with:  bin/try_seed_snap.sh --refresh
 set -u
 SNAP=/tmp/verif-try
 TGT=/tmp/verif-try-target
+RT=/tmp/repo-try
 if [ "${1:-}" = "--refresh" ]; then
-  if [ -d $SNAP ]; then git -C $SNAP checkout -q --detach "$(git -C /verif rev-parse HEAD)"; else git -C /verif worktree add -q --detach $SNAP HEAD; fi
+  if [ -d $SNAP ]; then git -C $SNAP checkout -q -- . ; git -C $SNAP checkout -q --detach "$(git -C /verif rev-parse HEAD)"; else git -C /verif worktree add -q --detach $SNAP HEAD; fi
   [ -d $TGT ] || cp -a /verif/harness/target $TGT
+  if [ -d $RT ]; then git -C $RT checkout -q -- . ; git -C $RT checkout -q --detach "$(git -C /repo rev-parse HEAD)"; else git -C /repo worktree add -q --detach $RT HEAD; fi
+  sed -i 's#path = "/repo"#path = "/tmp/repo-try"#' $SNAP/harness/Cargo.toml
   git -C $SNAP log --oneline | head -1
   exit 0
 fi
@@ -18,10 +23,10 @@ seed=$1; shift
 patch=/verif/seeded/$seed/patch.diff
 [ -f "$patch" ] || { echo "no such seed $seed"; exit 2; }
 [ -d $SNAP ] || { echo "no snapshot; run --refresh"; exit 2; }
-if ! git -C /repo diff --quiet; then echo "/repo has uncommitted changes"; exit 2; fi
+git -C $RT checkout -q -- .
 out=$(mktemp -d /tmp/seedtry-XXXX)
-git -C /repo apply "$patch" || { echo "patch does not apply"; exit 2; }
-trap 'git -C /repo checkout -- .; rm -rf "$out"' EXIT
+git -C $RT apply "$patch" || { echo "patch does not apply"; exit 2; }
+trap 'git -C $RT checkout -q -- .; rm -rf "$out"' EXIT
 mkdir -p "$out/evidence" "$out/replays"
 export CARGO_NET_OFFLINE=true CARGO_TARGET_DIR=$TGT
 if ! (cd $SNAP/harness && cargo build --release --offline -q 2>"$out/build.log"); then
